@@ -1,0 +1,21 @@
+//go:build verif
+
+package debug
+
+import "github.com/goghcrow/yae/val"
+
+// VerifEntry is one recorded (value, column) pair of a debug record.
+type VerifEntry struct {
+	V   *val.Val
+	Col int
+}
+
+// VerifEntries returns a copy of the record's entries in recording order
+// (read it before Render, which sorts the record in place).
+func (r *Record) VerifEntries() []VerifEntry {
+	out := make([]VerifEntry, len(r.vs))
+	for i, e := range r.vs {
+		out[i] = VerifEntry{V: e.v, Col: e.col}
+	}
+	return out
+}
